@@ -224,6 +224,59 @@ pub fn run(ctx: &Ctx) -> Report {
         }
         Ok(())
     });
+    // very wide nodes: one side has 6-9 queens and rooks against a nearly bare king (more than
+    // 128 pseudo-legal moves, almost no captures, so the reference stays cheap); depth 1-2
+    let wide = ctx.tier.pick(480, 8000) / ctx.shard_count() as u32;
+    run_prop(ctx, "c11-wide", wide, 100, (gen::synth_strategy(), 1u32..=2), &mut rep, |(ent, d), rep| {
+        let mut e = Entropy::new(ent);
+        let mut p = Pos::empty();
+        let bk = [0usize, 7, 56, 63, 3, 60, 24, 39][e.pick(8)];
+        p.sq[bk] = o::mk(false, o::K);
+        let far: Vec<usize> = (0..64).filter(|&s| (o::file_of(s) - o::file_of(bk)).abs().max((o::rank_of(s) - o::rank_of(bk)).abs()) > 2).collect();
+        p.sq[far[e.pick(far.len())]] = o::mk(true, o::K);
+        let nq = 6 + e.pick(4);
+        let mut pieces = vec![o::Q; nq];
+        pieces.extend([o::R, o::R, o::B, o::N]);
+        for t in pieces {
+            // not giving check and not adjacent to the bare king (no captures for it)
+            let free: Vec<usize> = (0..64)
+                .filter(|&s| {
+                    if p.sq[s] != 0 {
+                        return false;
+                    }
+                    let mut q = p.clone();
+                    q.sq[s] = o::mk(true, t);
+                    !q.attacked(bk, true)
+                })
+                .collect();
+            if free.is_empty() {
+                break;
+            }
+            p.sq[free[e.pick(free.len())]] = o::mk(true, t);
+        }
+        for _ in 0..e.pick(3) {
+            let t = [o::N, o::B, o::P][e.pick(3)];
+            let free: Vec<usize> = (0..64).filter(|&s| p.sq[s] == 0 && (t != o::P || (1..=6).contains(&o::rank_of(s)))).collect();
+            p.sq[free[e.pick(free.len())]] = o::mk(false, t);
+        }
+        p.wtm = true;
+        p.fmn = 40 + e.pick(40) as u32;
+        let p = if e.pick(2) == 1 { p.mirror() } else { p };
+        if p.is_valid_start().is_err() || p.legal_moves().is_empty() {
+            rep.class("start:rejected");
+            return Ok(());
+        }
+        if p.pseudo_moves().len() > 128 {
+            rep.class("start:wide(>128 pseudo-legal moves)");
+        } else {
+            rep.class("start:wide(<=128)");
+        }
+        let out = compare(&p.to_fen(), &[], *d, budget, rep)?;
+        if let Some(s) = out.skipped {
+            rep.class(&format!("skipped:{s}"));
+        }
+        Ok(())
+    });
     // discovered-check set-ups at depth 2-3 (quiet moves that uncover a check, double attacks):
     // the kind of move a forward-pruning shortcut is most likely to mishandle
     let disc = ctx.tier.pick(3200, 48_000) / ctx.shard_count() as u32;
@@ -301,7 +354,7 @@ pub fn replay(ctx: &Ctx, case: &Value) -> Report {
 }
 
 pub const LEVEL: &str = "exploration";
-pub const RULE: &str = "cases = (position, game history, depth): every corpus FEN at depth 1-2 (quick) / 1-3 (thorough) plus proptest-generated cases from corpus / synthesised / pattern starts (mate nets, stalemates, fifty-move clocks 97-120, sparse endgames), half of them reached by up to 40 plies of weighted play whose history is kept (so repetitions are remembered); plus discovered-check set-ups at depth 2-3 and 'check-chain' positions (queens and rooks on an open board with bare kings) at depth 1-2; depth 1-3 everywhere, 4 when the root has <= 14 moves, 5 when <= 8, 6 when <= 5. With caching neutralised (hook H1): engine root score == reference unpruned negamax of the engine's look-ahead game on the oracle board, root entry depth == asked depth, and the chosen move's reference value == the root value (ties allowed). Cases whose reference exceeds its node budget are skipped and counted. Non-trivial = the value is not the static evaluation of the root or the tree contained a mate score, repetition draw, fifty-move draw, check extension, stalemate or quiescence capture; distinct by (start, moves, depth).";
+pub const RULE: &str = "cases = (position, game history, depth): every corpus FEN at depth 1-2 (quick) / 1-3 (thorough) plus proptest-generated cases from corpus / synthesised / pattern starts (mate nets, stalemates, fifty-move clocks 97-120, sparse endgames), half of them reached by up to 40 plies of weighted play whose history is kept (so repetitions are remembered); plus very wide nodes (6-9 queens against a nearly bare king, > 128 pseudo-legal moves) at depth 1-2, discovered-check set-ups at depth 2-3 and 'check-chain' positions (queens and rooks on an open board with bare kings) at depth 1-2; depth 1-3 everywhere, 4 when the root has <= 14 moves, 5 when <= 8, 6 when <= 5. With caching neutralised (hook H1): engine root score == reference unpruned negamax of the engine's look-ahead game on the oracle board, root entry depth == asked depth, and the chosen move's reference value == the root value (ties allowed). Cases whose reference exceeds its node budget are skipped and counted. Non-trivial = the value is not the static evaluation of the root or the tree contained a mate score, repetition draw, fifty-move draw, check extension, stalemate or quiescence capture; distinct by (start, moves, depth).";
 pub const ASSUMPTIONS: &[&str] = &[
     "the independent rules oracle; the reference negamax in vf/refsearch.rs (no pruning, no ordering, quiescence memoised by position)",
     "hook H1 empties the cache before every probe; the root's own store happens after the last probe, so the root result is read from the public TRANSPOSITION_TABLE",
